@@ -754,8 +754,34 @@ def rule_r20(repo):
     return converter_rule(repo, 'C18.R20', [('smt/veriT/verit_macro.py', 'get_cnf')], {'get_cnf'}, floor=8)
 
 
+def rule_r21(repo):
+    """Term.strip_quant strips universal and existential quantifiers alike.  What it returns for one term may be
+    used when the kind does not matter (the variables do not occur); comparing what it returns for *two* terms
+    equates !x. P x with ?x. P x."""
+    from .c18_shape import Paths
+    res = RuleResult('C18.R21', 'the kind-blind quantifier destructor is never applied to both terms of a comparison', floor=1)
+    for mi in macro_index(repo):
+        if mi.eval is None or not mr.verit_macros(mi):
+            continue
+        f = mi.eval
+        calls = [c for c in ast.walk(f.node) if isinstance(c, ast.Call) and call_attr(c) == 'strip_quant' and not c.args]
+        if not calls:
+            continue
+        paths = Paths(f.node, f.params()[1:3])
+        subjects = {}
+        for c in calls:
+            subjects.setdefault(frozenset(paths.canon(c.func.value)) or src(c.func.value, 40), []).append(c)
+        ok = len(subjects) <= 1
+        res.add('%s :: eval :: kind-blind-strip' % mi.key, ok,
+                'applied to one term only' if ok else
+                'lines %s strip the quantifiers of %d different terms without regard to their kind and the results are compared: '
+                '(!x. P x) <--> (?x. P x) was accepted' % (', '.join(str(c.lineno) for c in calls), len(subjects)),
+                '%s:%d' % (f.module.rel, calls[0].lineno))
+    return res
+
+
 def rules(repo):
     r1 = mr.zip_rule(repo, 'C18.R1', mr.verit_eval_side_functions(repo), floor=9)
     r2 = mr.hyps_rule(repo, 'C18.R2', mr.verit_macros, floor=80)
     return [r1, r2, rule_r3(repo), rule_r4(repo), rule_r5(repo), rule_r6(repo), rule_r7(repo), rule_r8(repo), rule_r9(repo), rule_r10(repo), rule_r11(repo), mr.expansion_uses_rule(repo, 'C18.R12', mr.verit_macros, floor=15), rule_r13(repo), rule_r14(repo),
-            rule_r15(repo), rule_r16(repo), rule_r17(repo), rule_r18(repo), rule_r19(repo), rule_r20(repo)]
+            rule_r15(repo), rule_r16(repo), rule_r17(repo), rule_r18(repo), rule_r19(repo), rule_r20(repo), rule_r21(repo)]
